@@ -18,8 +18,12 @@ RULE = (
     "utm/utm-n/utm-s; mode auto/fit/same/explicit resolution/tuple shape/int shape; anchor default/edge/centre/"
     "fraction/XY/floating; tight; tol in {1e-3,0.01,0.1}; round_resolution None/True/False/callable; entry points "
     "compute_output_geobox, GeoBox.to_crs, .odc.output_geobox. Oracle: independent pyproj transformer on a 33x33 "
-    "lattice of pixel corners + dense boundary, evaluated in the result's pixel plane. Non-trivial: CRSs differ, or "
-    "source mirrored/rotated; distinct key = (source label, target, mode, sign class, rotation, anchor class, tight)."
+    "lattice of pixel corners + dense boundary (<=500 points per side), evaluated in the result's pixel plane; edge "
+    "bounds against the footprint and the footprint padded by one source pixel (shapely buffer, projected by the "
+    "oracle). Focused sub-checks: continental extents in curved CRS pairs with tight grids and tol=1e-3 (big_curved), "
+    "shape requests, same-CRS requests, utm*, footprints placed 5*tol beyond an output grid line (tol_band), agreement "
+    "of the three entry points. Non-trivial: CRSs differ, or source mirrored/rotated; distinct key = (source label, "
+    "target, mode, sign class, rotation, anchor class, tight)."
 )
 ASSUMPTIONS = [
     "pyproj's default transformation between two CRSs (Transformer.from_crs, always_xy) is the reference for "
